@@ -36,6 +36,9 @@ func lastInt(callee string) int64 { return 0 }
 // lastBool(callee): boolean result of the most recent call of that callee in the function being verified (ghost).
 func lastBool(callee string) bool { return true }
 
+// lastNil(callee): the pointer returned by the most recent call of that callee in the function being verified was nil (ghost).
+func lastNil(callee string) bool { return true }
+
 // recvs(ch): number of receive operations executed on channel ch so far (ghost).
 func recvs[T any](ch chan T) int { return 0 }
 
